@@ -53,4 +53,4 @@ def configs(tier):
 def run(chk, tier, jobs, deadline):
     chk.assumptions += ASSUME
     msgfamily.run_configs(chk, "h_msg", configs(tier), PREFIXES, jobs,
-                          deadline or (600 if tier == "quick" else 2700))
+                          deadline or (600 if tier == "quick" else 1500))
